@@ -44,7 +44,7 @@ SENSITIVITY = [
     ("MC_ThreadPool_dev_NoRespawn_tasks.cfg", "NoRespawn", "temporal", "EventuallyEachOnce"),
     ("MC_ThreadPool_dev_StopJoinsWorkers.cfg", "StopJoinsWorkers", "temporal", "CallerNeverBlocks"),
     ("MC_ThreadPool_dev_RequeueOnPanic.cfg", "RequeueOnPanic", "invariant", "AtMostOnce"),
-    ("MC_ThreadPool_dev_ShutdownPerStop2.cfg", "ShutdownPerStop2", "invariant", "NoPrematureExit"),
+    ("MC_ThreadPool_dev_ShutdownPerStop2.cfg", "ShutdownPerStop2", "invariant", "SingleShutdown"),
 ]
 WITNESSES = [  # Gen cfg, what the schedule shows
     ("Gen_ThreadPool_wit_par2.cfg", "2 tasks running at once on a 2-thread pool"),
@@ -52,7 +52,7 @@ WITNESSES = [  # Gen cfg, what the schedule shows
     ("Gen_ThreadPool_wit_respawned_runs.cfg", "a respawned worker runs the next task"),
     ("Gen_ThreadPool_wit_second_respawn.cfg", "a respawned worker panics again and is respawned again"),
     ("Gen_ThreadPool_wit_drop_busy_nostop.cfg", "drop without stop while a task runs and another is queued"),
-    ("Gen_ThreadPool_wit_stop_drop_busy.cfg", "stop+drop completed while one worker runs a task and another sits in recv"),
+    ("Gen_ThreadPool_wit_stop_busy.cfg", "after stop one worker has consumed the Shutdown while another runs a task and a third sits in recv"),
     ("Gen_ThreadPool_wit_respawn_after_drop.cfg", "the recovery thread respawns a worker whose handle Drop has already taken"),
 ]
 
@@ -405,6 +405,7 @@ def _run(ctx, thorough, pool_bin, work, rng, replay):
     total_events = 0
     shapes = 0
     monitored = 0
+    barriers = 0
     hangs = []
     for i, (runs, maxn, maxt) in enumerate(chunks):
         tf = os.path.join(work, "random-%d.ndjson" % i)
@@ -417,6 +418,7 @@ def _run(ctx, thorough, pool_bin, work, rng, replay):
         total_events += s["events"]
         shapes = max(shapes, s["distinct_shapes"])
         monitored += s.get("monitored_runs", 0)
+        barriers += s.get("barrier_runs", 0)
         fingerprints.update(s["fingerprints"])
         rfiles.append(tf)
         if i == 0:
@@ -460,7 +462,7 @@ def _run(ctx, thorough, pool_bin, work, rng, replay):
         ctx.violation("recorded run not explained by ThreadPool.tla at record %s: %s; model state before it: %s" % (
             pos, json.dumps(rej["context"][-1]) if rej else "?", json.dumps(st)),
             {"kind": "trace", "rejected_at": pos - start, "model_state": st, "log": lines[start:pos + 5]})
-    ctx.add_part("randomised real runs", runs=total_runs, events=total_events, lifecycle_shapes=shapes, runs_with_monitor_stream=monitored,
+    ctx.add_part("randomised real runs", runs=total_runs, events=total_events, lifecycle_shapes=shapes, runs_with_monitor_stream=monitored, barrier_runs_n_tasks_waiting_for_each_other=barriers,
                  distinct_interleavings=len(fingerprints), hangs=len(hangs))
 
     # ---------------------------------------------------------------- the exhaustive runs started at the beginning
